@@ -56,6 +56,8 @@ class TermEval:
             return ("cls", t[1])
         if h in ("tuple", "list"):
             return tuple(self.ev(x) for x in t[1]) if h == "tuple" else [self.ev(x) for x in t[1]]
+        if h == "dict":
+            return {self.ev(k): self.ev(v) for k, v in t[1]}
         if h == "unpack":
             return self.ev(t[1])[t[2]]
         if h == "sub":
